@@ -4,6 +4,9 @@
 // compiled only under the build tag "verif").
 package target
 
+// Every function under contract in this package also serves the properties that depend on the whole package.
+//@ package-props C17
+
 // The current configuration is only touched under Config.mu; it is always a valid
 // one (NewConfigWithBase and Load validate before storing), and the handler calls
 // made so far - all of them made under the lock - replay to it. The ghost replay
